@@ -81,6 +81,16 @@ CHECKS.update({
         "collective keys usable under the sum of the secret keys, plaintext preserved.", ref="DESIGN.md 4/C18",
    note="Trusted: TLC, spec/Multiparty.tla (abstract additive shares), harness/src/c18.rs. Only the round structure is modelled; ring identities are observed through ordinary encryption/decryption under the summed key."),
 })
+CHECKS.update({
+ "C19": dict(cat="model_checking", tech="TLC checks in spec/Lwe.tla that the butterfly packing / trace algorithm refines the abstract placement specification for every pack count; recorded results of the real extract/trace/pack validated by TLC against the abstract specification",
+   text="Design: PackAlgo = PackSpec and TraceAlgo = TraceSpec for all k <= N, N = 4, 8, 16 (thorough 2..32). Binding: for BFV/BGV/CKKS at N = 4..16 (..32): extract+assemble of every index from both representations, "
+        "field trace for every parameter, packing of every count 1..N on random small messages; decrypted polynomials must equal the specification (CKKS after rounding, deviation < 0.1).",
+   ref="DESIGN.md 4/C19", note="Trusted: TLC, spec/Lwe.tla, the decrypt/decode projection of harness/src/c19.rs. N up to 32 only."),
+ "C20": dict(cat="model_checking", tech="trace validation (impl->spec): results of the real matmul / conv2d helpers on enumerated small shapes checked by TLC against the functional specification spec/MatMul.tla",
+   text="Cheetah coefficient-packing matmul on every shape (m,r,n) in 1..4 (1..6) x three objectives x cipher*plain / plain*cipher x packing on/off with selected-terms transport, bias and encode/decrypt round trip, plus multi-ciphertext / partial-block shapes; "
+        "the three BOLT slot-packing variants; conv2d over image 2..7 (2..9) x kernel up to 2x3 x channel/batch combinations incl. height and width tiling; every result must equal Y = XW + B mod t resp. the valid cross-correlation.",
+   ref="DESIGN.md 4/C20", note="Trusted: TLC, spec/MatMul.tla. BFV only (the CKKS variants and the RNS-plaintext wrapper are not exercised); the block search / index maps are covered functionally, not by a refinement model."),
+})
 NA_REASON = "check not built yet in this round (work in progress; see DESIGN.md section 8)"
 EXTRA = os.path.join(ROOT, "lib", "manifest_extra.json")
 
